@@ -8,6 +8,7 @@ REPO="${VERIF_REPO:-/repo}"
 cp "$REPO/go.sum" go/go.sum
 # tables regenerated from the working tree (the checks with "gen": true do the same on every run)
 ( cd go && go run -tags verif ./cmd/gotocoq -out ../coq/Gen )
+( cd go && go run ./cmd/effects -repo "$REPO" -out ../coq/Gen/Effects.v )
 ( cd coq && { echo "-Q . TV"; for d in Lib Gen Model Spec Proofs Check Props Findings; do ls $d/*.v 2>/dev/null | LC_ALL=C sort; done; } > _CoqProject && coq_makefile -f _CoqProject -o Makefile >/dev/null && ( ulimit -s unlimited 2>/dev/null || true; timeout 7200 make -j16 ) )
 cp "$REPO/go.sum" go/go.sum
 ( cd go && go build -tags verif -o ../build/drive ./cmd/drive )
